@@ -253,14 +253,14 @@ func RunCProg(p *CProg, rep Reporter) {
 	justWritten := false // no call at all was made on the top wrapper since its Write
 	blocked := false
 	for i, o := range p.Ops {
-		if blocked {
-			return
+		if blocked || atomic.LoadInt32(&blockedSeen) != 0 {
+			return // a blocked operation was reported by this process: its goroutine still holds whatever it held
 		}
 		top := len(stores) - 1
 		st, mv := stores[top], views[top]
 		jw := justWritten
 		justWritten = false
-		perr := safely(func() {
+		body := func() {
 			switch o.Op {
 			case "getnil":
 				// a call that panics inside the wrapper (nil key) must leave it usable
@@ -421,7 +421,22 @@ func RunCProg(p *CProg, rep Reporter) {
 				rep.Count("c15.seq.discards", 1)
 				fullCheck(i, o, top-1, "discard-had-effect")
 			}
-		})
+		}
+		var perr interface{}
+		if o.Op == "iter" || o.Op == "riter" || o.Op == "iterw" || o.Op == "riterw" {
+			// iterators own goroutines and locks in some stores: an operation that never returns is told by a watchdog
+			done := make(chan interface{}, 1)
+			go func() { done <- safely(body) }()
+			select {
+			case perr = <-done:
+			case <-time.After(15 * time.Second):
+				bad(i, o, "iterator-operation-blocked", fmt.Sprintf("range [%v,%v): creating, draining or closing the iterator did not return within 15 s", fmtB(o.Start), fmtB(o.End)))
+				atomic.StoreInt32(&blockedSeen, 1)
+				return
+			}
+		} else {
+			perr = safely(body)
+		}
 		if perr != nil {
 			bad(i, o, "panic/"+o.Op, fmt.Sprintf("panicked: %v", perr))
 			return
@@ -514,9 +529,11 @@ func (s slowParent) Set(k, v []byte)     { s.pause(); s.KVStore.Set(k, v) }
 func (s slowParent) Delete(k []byte)     { s.pause(); s.KVStore.Delete(k) }
 
 type ConcStats struct {
-	Ops      int
-	Overlaps int
-	PerKey   map[string]int
+	Ops        int
+	Overlaps   int
+	PerKey     map[string]int
+	Writes     int
+	Iterations int
 }
 
 // RunConcurrent runs goroutines against one wrapper, records the history at the client boundary and checks it.
@@ -533,7 +550,7 @@ func RunConcurrent(seed uint64, goroutines, opsEach, nkeys int) (string, ConcSta
 		}
 	}
 	w := cachekv.NewStore(slowParent{KVStore: base, spin: r0.Intn(3)})
-	var clock int64
+	var clock, writes, iters int64
 	var mu sync.Mutex
 	var hist []porcupine.Operation
 	var wg sync.WaitGroup
@@ -547,15 +564,38 @@ func RunConcurrent(seed uint64, goroutines, opsEach, nkeys int) (string, ConcSta
 				k := keys[r.Intn(len(keys))]
 				in := kvIn{Key: k}
 				var out kvOut
-				switch x := r.Intn(10); {
-				case x < 4:
+				switch x := r.Intn(20); {
+				case x < 7:
 					in.Op = "get"
-				case x < 5:
+				case x < 9:
 					in.Op = "has"
-				case x < 8:
+				case x < 14:
 					in.Op, in.Val = "set", fmt.Sprintf("g%d-%d", g, i) // unique value: a read identifies its write
-				default:
+				case x < 17:
 					in.Op = "del"
+				case x < 18:
+					// Write flushes to the parent and leaves the view as it is: not an event of the history, but every
+					// Set / Delete that returned before or during it must survive it
+					w.Write()
+					atomic.AddInt64(&writes, 1)
+					continue
+				default:
+					// an iteration over everything is one read per key, all spanning the whole iteration
+					call := atomic.AddInt64(&clock, 1)
+					seen := map[string]string{}
+					it := w.Iterator(nil, nil)
+					for ; it.Valid(); it.Next() {
+						seen[string(it.Key())] = string(it.Value())
+					}
+					it.Close()
+					ret := atomic.AddInt64(&clock, 1)
+					for _, kk := range keys {
+						v, ok := seen[kk]
+						// (a key deleted under the parent's lazy iterator reads as an empty value: absent)
+						local = append(local, porcupine.Operation{ClientId: g, Input: kvIn{Op: "get", Key: kk}, Call: call, Output: kvOut{Val: v, Found: ok && v != ""}, Return: ret})
+					}
+					atomic.AddInt64(&iters, 1)
+					continue
 				}
 				call := atomic.AddInt64(&clock, 1)
 				switch in.Op {
@@ -586,7 +626,7 @@ func RunConcurrent(seed uint64, goroutines, opsEach, nkeys int) (string, ConcSta
 		t += 2
 	}
 	full = append(full, hist...)
-	st := ConcStats{Ops: len(hist), PerKey: map[string]int{}}
+	st := ConcStats{Ops: len(hist), PerKey: map[string]int{}, Writes: int(writes), Iterations: int(iters)}
 	sort.Slice(hist, func(i, j int) bool { return hist[i].Call < hist[j].Call })
 	maxRet := int64(-1 << 62)
 	for _, op := range hist {
